@@ -310,6 +310,52 @@ template <class T, int DEPTH> static void prop_ycocgr(pbt::Ctx& c, const char* t
 		c.cls("checked-against-definition");
 	}
 }
+// full colour depth of the wide element types: unsigned 32/64-bit triples over the whole type (the lifting steps are exactly invertible
+// modulo 2^n, so wrap-around is harmless), signed 32/64-bit triples of depth bits-2 (no intermediate of the paper's steps overflows).
+// Components are drawn with a random bit length so that every magnitude from 2^0 to the full width occurs.
+template <class T> static void prop_ycocgr_wide(pbt::Ctx& c, const char* tn) {
+	typedef glm::vec<3, T> V;
+	typedef typename std::make_unsigned<T>::type U;
+	const int W = (int)sizeof(T) * 8, D = std::is_signed<T>::value ? W - 2 : W;
+	U ch[3]; int maxlen = 0;
+	for (int i = 0; i < 3; ++i) {
+		int len = 1 + (int)c.draw((uint64_t)D);
+		uint64_t v = c.draw(0);
+		if (len < 64) v &= (1ULL << len) - 1;
+		if (len > 1 && c.draw(4)) v |= 1ULL << (len - 1);  // usually exactly `len` significant bits
+		ch[i] = (U)v;
+		int l = 0; for (uint64_t t = (uint64_t)ch[i]; t; t >>= 1) ++l;
+		if (l > maxlen) maxlen = l;
+	}
+	V rgb((T)ch[0], (T)ch[1], (T)ch[2]);
+	c.logf("%s wide rgb=(%llu, %llu, %llu)", tn, (unsigned long long)ch[0], (unsigned long long)ch[1], (unsigned long long)ch[2]);
+	if (ch[0] != ch[1] && ch[1] != ch[2] && ch[0] != ch[2]) c.nontrivial(); else c.cls("repeated-channel");
+	c.cls(maxlen > 32 ? "depth>32" : maxlen > 16 ? "depth17-32" : "depth<=16");
+	V y = glm::rgb2YCoCgR(rgb);
+	V back = glm::YCoCgR2rgb(y);
+	if (!(back.x == rgb.x && back.y == rgb.y && back.z == rgb.z))
+		c.failk(std::string("YCoCgR2rgb(rgb2YCoCgR)/") + tn + "/lossless/wide", "(%llu, %llu, %llu) -> YCoCgR (%llu, %llu, %llu) -> (%llu, %llu, %llu)", (unsigned long long)(U)rgb.x, (unsigned long long)(U)rgb.y, (unsigned long long)(U)rgb.z, (unsigned long long)(U)y.x, (unsigned long long)(U)y.y, (unsigned long long)(U)y.z, (unsigned long long)(U)back.x, (unsigned long long)(U)back.y, (unsigned long long)(U)back.z);
+	if (!std::is_signed<T>::value) {  // the other direction: any unsigned triple read as a code (for signed types it could overflow)
+		V rr = glm::YCoCgR2rgb(rgb);
+		V yy = glm::rgb2YCoCgR(rr);
+		if (!(yy.x == rgb.x && yy.y == rgb.y && yy.z == rgb.z))
+			c.failk(std::string("rgb2YCoCgR(YCoCgR2rgb)/") + tn + "/lossless/wide", "code (%llu, %llu, %llu) -> rgb (%llu, %llu, %llu) -> (%llu, %llu, %llu)", (unsigned long long)(U)rgb.x, (unsigned long long)(U)rgb.y, (unsigned long long)(U)rgb.z, (unsigned long long)(U)rr.x, (unsigned long long)(U)rr.y, (unsigned long long)(U)rr.z, (unsigned long long)(U)yy.x, (unsigned long long)(U)yy.y, (unsigned long long)(U)yy.z);
+	} else {
+		int64_t w[3], in[3] = {(int64_t)ch[0], (int64_t)ch[1], (int64_t)ch[2]};
+		rc::rgb2ycocgr_int(in, w);
+		static const char* CH[3] = {"Y", "Co", "Cg"};
+		for (int i = 0; i < 3; ++i) if ((int64_t)y[i] != w[i]) c.failk(std::string("rgb2YCoCgR/") + tn + "/wide/" + CH[i], "rgb (%lld, %lld, %lld): %s = %lld, YCoCg-R definition gives %lld", (long long)in[0], (long long)in[1], (long long)in[2], CH[i], (long long)y[i], (long long)w[i]);
+		c.cls("checked-against-definition");
+	}
+}
+#define RW "random triples over the element type's full colour depth (unsigned: all of the type; signed: bits-2), component bit length uniform in 1..depth: exact round trip, for unsigned types both ways, for signed types also equality with the paper's lifting steps; non-trivial = three distinct channels"
+#define YRW(T, N) \
+	static void ycocgr_wide_##N(pbt::Ctx& c) { prop_ycocgr_wide<T>(c, #N); } \
+	PBT_RANDOM("ycocgr_int/" #N "/wide", ycocgr_wide_##N, 1000000, 50000000, RW)
+YRW(glm::uint32, uvec3);
+YRW(glm::int32, ivec3);
+YRW(glm::uint64, u64vec3);
+YRW(glm::int64, i64vec3);
 #define YR(T, N, DEPTH, QS, RULE) \
 	static void ycocgr_##N##_##DEPTH(pbt::Ctx& c) { prop_ycocgr<T, DEPTH>(c, #N); } \
 	PBT_SWEEP("ycocgr_int/" #N "/depth" #DEPTH, ycocgr_##N##_##DEPTH, 1ULL << 24, QS, 1, RULE)
